@@ -613,6 +613,39 @@ def gen_state_case(rng, focus=None):
     return case
 
 
+def gen_held_case(rng, focus=None):
+    """@state_trigger("pyscript.x", state_hold=S): every change of x is an occurrence that is processed S later (changes are
+    further apart than S, so each one is held exactly once); the guard must see that change's value and .old"""
+    legacy = rng.random() < 0.5
+    base_us = us_of_dt(rng.choice(BASE_DAYS)) + rand_tod(rng) // SEC * SEC
+    S = rng.choice([TICK // 4 + 37, TICK + 12345, 3 * TICK // 2 + 1, TICK // 100 + 3, 2 * TICK + 777])   # off the second grid
+    t = 2 * TICK
+    ops = []
+    x = None
+    for _ in range(rng.randint(2, 6)):
+        t += S + rng.randrange(TICK // 20, 3 * TICK)
+        if rng.random() < 0.2:
+            ops.append({"k": "direct", "t": t - TICK // 40, "exact": False})
+        v = rng.choice([c for c in range(4) if c != x])
+        x = v
+        ops.append({"k": "xset", "t": t, "v": v})
+        ops.append({"k": "held", "t": t + S, "v": v, "exact": False})
+        t += S
+    ops = add_sety(rng, ops, rng.randint(0, 4))
+    sa = gen_expr(rng, [0, 10, 10, 10, 1, 2])
+    if rng.random() < 0.3:
+        sa = ["and", ["eq", 10, rng.randrange(0, 4)], ["eq", 0, rng.randrange(0, 4)]] if rng.random() < 0.5 else ["eq", 10, rng.randrange(0, 4)]
+    ta = None
+    if rng.random() < 0.25:
+        ta = {"specs": [], "hold": None}
+    return {"legacy": legacy, "ta_first": rng.random() < 0.5, "sa": sa, "ta": ta, "y_watched": rng.random() < 0.4,
+            "base_us": base_us, "ops": ops, "want_sun": False, "trig_above": rng.random() < 0.2, "state_hold": S}
+
+
+def gen_stateactive_mixed(rng, focus=None):
+    return gen_held_case(rng, focus) if rng.random() < 0.35 else gen_state_case(rng, focus)
+
+
 # ------------------------------------------------------------------------------------------------
 # case -> occurrences -> Gallina
 # ------------------------------------------------------------------------------------------------
@@ -622,7 +655,8 @@ def occurrences(case):
     y = None
     occs = []
     ops = case["ops"]
-    x_watched = any(o["k"] == "state" for o in ops) or "state" in case.get("extra_trig", [])
+    x_watched = any(o["k"] in ("state", "held") for o in ops) or "state" in case.get("extra_trig", [])
+    held_trig = []            # triggering values of the change whose state_hold is running
     y_watched = bool(case.get("y_watched"))
     i = 0
     while i < len(ops):
@@ -635,6 +669,13 @@ def occurrences(case):
             k = op["k"]
             if k == "sety":
                 y = op["v"]
+                continue
+            if k == "xset":
+                held_trig = [(0, op["v"]), (10, x)]
+                x = op["v"]
+                continue
+            if k == "held":
+                pend.append(["state", op["t"], case["base_us"] + tick_us(op["t"]), held_trig, False])
                 continue
             wall = op["w"] if k == "time" else case["base_us"] + tick_us(op["t"]) + n
             trig = []
@@ -765,7 +806,7 @@ class GuardStream(Stream):
 
     def kind(self, case, obs):
         ta = case.get("ta")
-        kinds = "+".join(sorted({o["k"] for o in case["ops"] if o["k"] != "sety"}))
+        kinds = "+".join(sorted({o["k"] for o in case["ops"] if o["k"] not in ("sety", "xset")}))
         sp = "none" if ta is None else "/".join(sorted({("not-" if s["neg"] else "") + ("cron" if "cron" in s else "range") for s in ta["specs"]})) or "nospec"
         return f"{'legacy' if case['legacy'] else 'new'}:{kinds}:{sp}:{'hold' if ta and ta.get('hold') else 'nohold'}:{'sa' if case.get('sa') else 'nosa'}"
 
@@ -798,8 +839,10 @@ class C07(Prop):
         GuardStream("stateactive",
                     "random state_active expressions (==, not, and, or) over the trigger variable, its .old, an unwatched entity (optionally "
                     "watched by another function) and a non-existent entity; state occurrences incl. two changes in the same instant, "
-                    "event/time occurrences and direct calls; optional @time_active(hold_off=) without windows; both subsystems",
-                    gen_state_case, 300, 5000),
+                    "event/time occurrences and direct calls; optional @time_active(hold_off=) without windows; 35 % of the cases use "
+                    "@state_trigger(x, state_hold=S) with S off the second grid, so the run is started S after the change by the hold "
+                    "timer and the guard must still see that change's value and .old (unwatched entity may change during the hold); "
+                    "both subsystems", gen_stateactive_mixed, 300, 5000),
     ]
     trusted_base = [
         "modelled, not verified: timer_active_check on parsed specifications (Time/Windows.v), trigger_watch l.1284-1320 and "
